@@ -44,7 +44,7 @@ ASSUMPTIONS = [
     "taps are three-line pass-through generators and are lazy by construction",
 ]
 FAULT_KINDS = ["consumer-stop-close", "consumer-stop-drop", "upstream-raise", "infinite-source"]
-EXPECTED_PROBES = ["split-multi-block", "negative-stop-slice", "negative-start-slice", "count-lookahead",
+EXPECTED_PROBES = ["empty-negative-slice", "negative-start-positive-stop-long-flow", "split-multi-block", "negative-stop-slice", "negative-start-slice", "count-lookahead",
                    "infinite-source-bounded-by-slice", "stop-mid-block", "liveness-armed",
                    "fault-before-first-output", "islice-drain-at-end", "nested-split"]
 
@@ -117,7 +117,8 @@ SLICE_PATTERNS = ["stop", "start-stop", "start-stop-step", "start-none", "neg-st
 
 
 def gen_slice(tape, infinite):
-    pats = SLICE_PATTERNS if not infinite else SLICE_PATTERNS[:7]
+    # on an infinite source only slices that terminate when evaluated lazily
+    pats = SLICE_PATTERNS if not infinite else (SLICE_PATTERNS[:7] + SLICE_PATTERNS[8:])
     pat = tape.choice(pats, "slice-pattern")
     a = tape.draw(4, "slice-a")
     b = tape.draw(6, "slice-b")
@@ -140,6 +141,9 @@ def gen_slice(tape, infinite):
     if pat == "neg-start":
         return (-m, None)
     if pat == "neg-start-neg-stop":
+        if infinite or tape.chance(1, 3, "empty-negative-slice"):
+            # stop <= start: nothing can be selected, whatever the flow
+            return (-m, -(m + a), s)
         return (-(m + a), -m if a else None)
     return (-m, b)
 
@@ -270,16 +274,16 @@ def slice_selected(args, positions_upto):
     return range(start, positions_upto, step)
 
 
-def owed(node, consumed):
+def owed(node, consumed, accepted=0):
     """Number of results that the values consumed so far already determine and
-    that must therefore have been handed on before the element pulls again."""
+    that must therefore have been handed on before the element pulls again.
+    *accepted*: running count of consumed values the Filter's predicate accepts."""
     n = len(consumed)
     k = node.kind
     if k in CALLISH or k == "runif":
         return n
     if k == "filter":
-        ok = node.pred.ok
-        return sum(1 for key in consumed if ok(key[0]))
+        return accepted
     if k == "count":
         return max(n - 1, 0)
     if k == "slice":
@@ -578,6 +582,10 @@ def judge(sc, o, res):
             s = slice(*x.p["args"])
             if s.start is not None and s.start < 0:
                 res.probe("negative-start-slice")
+                if s.stop is not None and s.stop < 0 and s.stop <= s.start:
+                    res.probe("empty-negative-slice")
+                if s.stop is not None and s.stop >= 0 and (sc.n is None or sc.n > s.stop - s.start + 1):
+                    res.probe("negative-start-positive-stop-long-flow")
             elif s.stop is not None and s.stop < 0:
                 res.probe("negative-stop-slice")
         if x.kind == "count":
@@ -678,6 +686,15 @@ def check_element(sc, node, events):
     s = slice(*node.p["args"]) if node.kind == "slice" else None
     nonneg_stop = (s is not None and s.stop is not None and s.stop >= 0
                    and (s.start is None or s.start >= 0))
+    # negative start: the result is known to be empty without reading (stop <= start < 0),
+    # or as soon as the flow is seen to be longer than stop - start (start < 0 <= stop;
+    # one value of look-ahead is allowed for noticing that)
+    pull_cap = None
+    if s is not None and s.start is not None and s.start < 0 and s.stop is not None:
+        if s.stop < 0 and s.stop <= s.start:
+            pull_cap = 0
+        elif s.stop >= 0:
+            pull_cap = s.stop - s.start + 1
     for e in events:
         if e[0] != "tap":
             continue
@@ -688,11 +705,11 @@ def check_element(sc, node, events):
         key = (e[3], e[4])
         state = st.get(inv)
         if state is None:
-            state = st[inv] = {"consumed": [], "pos": {}, "nB": 0}
+            state = st[inv] = {"consumed": [], "pos": {}, "nB": 0, "acc": 0}
         if name == A:
             cons = state["consumed"]
             # invariant 2': before pulling again, everything already determined is out
-            need = owed(node, cons)
+            need = owed(node, cons, state["acc"])
             if state["nB"] < need:
                 return ("C02:%s:reads-ahead" % label,
                         "%s (%s) pulled input #%d while only %d of the %d results determined by "
@@ -700,11 +717,17 @@ def check_element(sc, node, events):
                         % (node.name, node.describe(), len(cons), state["nB"], need, len(cons)))
             state["pos"][key] = len(cons)
             cons.append(key)
+            if node.kind == "filter" and node.pred.ok(key[0]):
+                state["acc"] += 1
             # invariant 3: bounded demand
             if nonneg_stop and len(cons) > s.stop:
                 return ("C02:%s:pulls-beyond-stop" % label,
                         "%s (%s) pulled %d values although stop=%d"
                         % (node.name, node.describe(), len(cons), s.stop))
+            if pull_cap is not None and len(cons) > pull_cap:
+                return ("C02:%s:pulls-although-result-is-determined" % label,
+                        "%s (%s) pulled %d values; after %d its (empty) result is determined"
+                        % (node.name, node.describe(), len(cons), pull_cap))
         else:
             state["nB"] += 1
             p = state["pos"].get(key)
